@@ -36,7 +36,9 @@ def run_property(pid, tier):
             if algebra.PARANOID['disagreements']:
                 raise AnalysisError('the algebra normaliser and exact random evaluation disagree on %d identities, e.g. %r'
                                     % (len(algebra.PARANOID['disagreements']), algebra.PARANOID['disagreements'][0]))
-            if not any(not o.ok for o in rep.obls):
+            from sa.report import load_known
+            known_keys = {k.get('key') for k in load_known() if k.get('property') == pid and k.get('status') == 'known'}
+            if not any((not o.ok) and o.key() not in known_keys for o in rep.obls):
                 try:
                     st = selftest.sweep(pid, sorted(rep.analysed['functions']), seed=int(os.environ.get('VERIF_SEED', '0') or 0))
                 except Exception as e:      # the sweep is an extra; its infrastructure never decides the verdict
